@@ -295,11 +295,14 @@ def gen_histories(g, n, **kw):
 
 def guard_violations(ops, out):
     bad = []
-    for op, o in zip(ops, out):
+    for i, (op, o) in enumerate(zip(ops, out)):
         if op.startswith("M ") and o.endswith(" BAD"):
-            bad.append({"op": op, "out": o[-80:]})
+            bad.append({"op": op, "out": o[-80:], "history": history_around(ops, i),
+                        "what": "bytes outside the caller buffer were modified (guard region)"})
         if op.startswith("L ") and o.endswith("GUARD-BAD"):
-            bad.append({"op": op, "out": o[-80:]})
+            bad.append({"op": op, "out": o[-80:], "what": "bytes outside the scratch buffer were modified"})
+        if len(bad) >= 5:
+            break
     return bad
 
 
@@ -331,11 +334,32 @@ def check_C07(cx):
                         h.append("A 0 %s" % cases.hexs(p))
                     h += ["G 0", "M 0", "A 0 %s" % cases.hexs(b"nop"), "G 0", "M 0", "F 0"]
                     hists.append(h)
+    # chunk fitting near the end of the buffer: an instruction of 10..15 bytes that has to be
+    # padded to the next boundary when fewer than 20 (or fewer than its own length) bytes remain
+    longs = [b"mov qword [rax+rbx*8+0x12345678], 0x12345678", b"mov rax, 0x1122334455667788",
+             b"vpaddb ymm1, ymm2, [rax+r9*4+0x100]", b"add dword [eax+ecx*4+0x11223344], 0x55667788"]
+    for n in range(20, (72 if cx.tier == "thorough" else 56)):
+        for c in (8, 12, 16, 24, 32):
+            for lead in (0, 1, 3, 5, 7):
+                for li, lg in enumerate(longs):
+                    if (n + c + lead + li) % (1 if cx.tier == "thorough" else 3):
+                        continue
+                    prog = b"\n".join([b"nop"] * lead + [lg, lg])
+                    hists.append(["N 0 %d cc" % n, "K 0 %d" % c, "A 0 %s" % cases.hexs(prog), "G 0", "M 0", "F 0"])
     nex = len(hists)
     hists += gen_histories(g, 400 if cx.tier == "quick" else 6000, allow_internal=False)
     ops, out = tie_api_mod_lf(cx, impl, hists, "C07 histories on caller buffers with guard regions")
     for b in guard_violations(ops, out):
         cx.violations.append({"kind": "guard", **b})
+    # a call that succeeds where the model — which, with the implementation's own per-line results,
+    # fails exactly when fewer than BUFFER_TOLERANCE bytes remain (theorem no_room_fails) — fails,
+    # stored an instruction inside the reserve: a concrete violation of the reserve clause
+    for b in list(cx.broken):
+        if b.get("impl", "").startswith("0 ") and b.get("model", "").startswith("1 ") and b.get("op", "")[:1] in "AC":
+            cx.violations.append({"kind": "reserve", "what": "call returned EXIT_SUCCESS although fewer than 20 bytes "
+                                  "remained for an instruction (model with the implementation's own line results fails)",
+                                  "history": history_around(ops, b["op_index"]), **b})
+            break
     cx.cov["samples"] = [hists[5], hists[nex + 1] if len(hists) > nex + 1 else hists[-1]]
     cx.nontrivial.update(tuple(h) for h in hists)
     cx.dist = {"buffer_lengths_exhaustive": [0, maxn], "structured_histories": nex, "random_histories": len(hists) - nex,
@@ -344,6 +368,18 @@ def check_C07(cx):
                   "start offsets around the 20-byte reserve x plain/fitting/counting, then seeded random histories "
                   "(setters, chunk, offset, assemble, counting, failures followed by further calls); guard regions "
                   "checked after every dump; distinct = distinct histories" % maxn)
+
+
+def history_around(ops, idx):
+    """the ops of the history that contains op number idx (a history starts at its first N op
+    after an F op or at the beginning)"""
+    start = idx
+    while start > 0 and not (ops[start].startswith("N ") and (start == 0 or ops[start - 1].startswith("F "))):
+        start -= 1
+    end = idx
+    while end + 1 < len(ops) and not ops[end].startswith("F "):
+        end += 1
+    return ops[start:end + 1]
 
 
 CHECKS = {"C12": check_C12, "C07": check_C07}
